@@ -181,6 +181,19 @@ Fixpoint ok_prog_from (ver : ipver) (pre : list op) (h : list op) (ps : list (op
 Definition ok_prog (ver : ipver) (h : list op) (ps : list (option (list N))) : bool :=
   if wf_history ver h then ok_prog_from ver [] h ps else true.
 
+(* ------------------------------------------------------------------ what the kernel holds: rule and flowtable object *)
+(* the rule as programmed must be guarded, the flowtable it names must exist (else nft rejects the transaction and the whole
+   table is lost: felix/design/dataplane.md), and the flowtable names exactly the offered devices that exist *)
+Definition mem (d : N) (l : list N) : bool := existsb (N.eqb d) l.
+Definition ok_ft_devs (ovl wl ext existing devs : list N) : bool :=
+  forallb (fun d => mem d existing && (mem d ovl || mem d wl || mem d ext)) devs
+  && forallb (fun d => implb (mem d existing) (mem d devs)) (ovl ++ wl ++ ext).
+Definition ok_kernel (ver : ipver) (kr : option orule) (declared : bool) (devs : list N)
+                     (din : list N * list N * list N * list N) : bool :=
+  let '(ovl, wl, ext, existing) := din in
+  match kr with Some r => ok_rule ver r | None => false end
+  && declared && ok_ft_devs ovl wl ext existing devs.
+
 (* ------------------------------------------------------------------ one correspondence case *)
 Record case := {
   c_ver : ipver;                            (* IP version of the manager / of the rendered chains *)
@@ -191,8 +204,14 @@ Record case := {
   c_rules : list located;                   (* every rendered static rule carrying a flow-offload statement, parsed *)
   c_limits : list (option qos * bool);      (* per workload update: its QoSControls, and whether the REAL renderer put a
                                                packet-rate or connection-limit rule into the endpoint's filter chains *)
-  c_prog : list (option (list N))           (* per Flush: the elements of the set THE RULE NAMES in the (fake) kernel after the
+  c_prog : list (option (list N));          (* per Flush: the elements of the set THE RULE NAMES in the (fake) kernel after the
                                                REAL felix/nftables.IPSets applied the manager's calls (ascending; None = no such set) *)
+  c_krule : option orule;                   (* the flow-offload rule read back from cali-FORWARD of the same fake kernel after the REAL
+                                               nftables.NftablesTable programmed the real rendered rule (None = no such rule) *)
+  c_ft_declared : bool;                     (* the flowtable that rule names exists in the fake kernel after Apply() *)
+  c_ft_devs : list N;                       (* the devices of that flowtable object *)
+  c_dev_in : list N * list N * list N * list N   (* SetOverlayDevices / SetWorkloadInterfaces / SetExternalDevices arguments and the
+                                                    interfaces the kernel has (ListInterfaces) *)
 }.
 
 (* the property's words "a connection or packet rate limit" denote exactly the controls for which Felix renders a limit
@@ -205,6 +224,10 @@ Definition ok_limits (l : list (option qos * bool)) : bool :=
 Definition check_case (c : case) : bool * bool :=
   (outs_eqb (run (c_ver c) init (c_ops c)) (c_outs c)
    && list_eqb located_eqb (static_offload_rules (c_nft c) (c_offload c)) (c_rules c)
-   && outs_eqb (progs None (c_outs c)) (c_prog c),
+   && outs_eqb (progs None (c_outs c)) (c_prog c)
+   && opt_eqb orule_eqb (Some offload_rule) (c_krule c)
+   && Bool.eqb (ft_declared_after_apply true) (c_ft_declared c)
+   && (let '(ovl, wl, ext, existing) := c_dev_in c in list_eqb N.eqb (ft_devices ovl wl ext existing) (c_ft_devs c)),
    ok_trace (c_ver c) (c_ops c) (c_outs c) && ok_rules (c_ver c) (c_rules c) && ok_limits (c_limits c)
-   && ok_prog (c_ver c) (c_ops c) (c_prog c)).
+   && ok_prog (c_ver c) (c_ops c) (c_prog c)
+   && ok_kernel (c_ver c) (c_krule c) (c_ft_declared c) (c_ft_devs c) (c_dev_in c)).
